@@ -56,6 +56,7 @@ A_SPL == INSTANCE AutoChoice WITH AutoMutant <- "SlogdetPSDLU"
 A_ENP == INSTANCE AutoChoice WITH AutoMutant <- "EigNoPower"
 A_UUS == INSTANCE AutoChoice WITH AutoMutant <- "UnaryUsesSA"
 A_DS6 == INSTANCE AutoChoice WITH AutoMutant <- "DiagSwitch1e6"
+A_EPF == INSTANCE AutoChoice WITH AutoMutant <- "EigPowerForwardAll"
 Ctl ==
     LET nc == {<<"UnaryDropLast", A_UDL!AutoTotalAt(c.fn, c.F)>>,
                <<"PinvOverlap", A_PO!AutoUniqueAt(c.fn, c.F)>>,
@@ -64,13 +65,14 @@ Ctl ==
                <<"SlogdetPSDLU", A_SPL!AutoContractPSDAt(c.fn, c.F)>>,
                <<"EigNoPower", A_ENP!AutoMatchesDocAt(c.fn, c.F)>>,
                <<"UnaryUsesSA", A_UUS!AutoMatchesDocAt(c.fn, c.F)>>,
-               <<"DiagSwitch1e6", A_DS6!DiagChoiceSoundAt(c.fn, c.F)>>}
-        wit == {<<"AutoOptsForward", AutoOptsForwardAt(c.fn, c.F)>>}
+               <<"DiagSwitch1e6", A_DS6!DiagChoiceSoundAt(c.fn, c.F)>>,
+               <<"EigPowerForwardAll", A_EPF!AutoOptsForwardAt(c.fn, c.F)>>}
+        wit == {<<"none", TRUE>>}
     IN [nc |-> {x[1]: x \in {y \in nc: ~y[2]}}, wit |-> {x[1]: x \in {y \in wit: ~y[2]}}]
 
 Out == LET o == AutoOutcome(c.fn, c.F)
            ch == AC_Chain(AC_Base(c.fn, c.F), c.fn, c.F)
-       IN [fn |-> c.fn, F |-> c.F, base |-> AC_Base(c.fn, c.F), alg |-> o.alg, exc |-> o.exc,
+       IN [fn |-> c.fn, F |-> c.F, base |-> AC_Base(c.fn, c.F), alg |-> o.alg, exc |-> o.exc, passed |-> o.passed,
            small |-> AC_Small(c.F), matching |-> Cardinality(AC_Matching(ch)), doc |-> AutoDoc(c.fn, c.F),
            docdev |-> AC_KnownDocDeviation(c.fn, c.F), iterbelow |-> (AC_Small(c.F) /\ AC_KnownIterBelow(c.fn, c.F)),
            directabove |-> (~AC_Small(c.F) /\ AC_KnownDirectAbove(c.fn, c.F)), ctl |-> Ctl]
@@ -87,7 +89,6 @@ AutoContractLarge == AutoContractLargeAt(c.fn, c.F)
 AutoContractPSD == AutoContractPSDAt(c.fn, c.F)
 AutoMatchesDoc == AutoMatchesDocAt(c.fn, c.F)
 DiagChoiceSound == DiagChoiceSoundAt(c.fn, c.F)
-AutoOptsForwardExceptEig == AutoOptsForwardExceptEigAt(c.fn, c.F)
-\* expected to FAIL (defect witness): eig forwards Lanczos-style options to PowerIteration
+\* (held for every entry point except eig before fix 00e9d62; unconditional since)
 AutoOptsForward == AutoOptsForwardAt(c.fn, c.F)
 =============================================================================
